@@ -64,6 +64,7 @@ type violation struct {
 	Replay    string `json:"replay"`
 	Count     int    `json:"count"`
 	Known     bool   `json:"known"`
+	KnownAs   string `json:"known_as,omitempty"`
 }
 
 // Ctx accumulates coverage for one run of one check. All methods are safe for concurrent use.
@@ -212,7 +213,7 @@ func (c *Ctx) Violation(signature, what string, replay any, recheck func() bool)
 	}
 	v := &violation{Signature: signature, What: what, Count: 1}
 	c.viols[signature] = v
-	_, v.Known = c.known[signature]
+	v.KnownAs, v.Known = c.matchKnown(signature)
 	c.mu.Unlock()
 
 	if recheck != nil {
@@ -271,6 +272,46 @@ func sigFile(sig string) string {
 	}
 	h := sha256.Sum256([]byte(sig))
 	return sb.String() + "-" + hex.EncodeToString(h[:4]) + ".json"
+}
+
+// matchKnown finds the known finding covering a signature: exact match, or a listed pattern
+// in which each '*' stands for one run of non-space characters (one feature value).
+func (c *Ctx) matchKnown(sig string) (string, bool) {
+	if _, ok := c.known[sig]; ok {
+		return sig, true
+	}
+	for pat := range c.known {
+		if strings.Contains(pat, "*") && globMatch(pat, sig) {
+			return pat, true
+		}
+	}
+	return "", false
+}
+
+func globMatch(pat, s string) bool {
+	parts := strings.Split(pat, "*")
+	if !strings.HasPrefix(s, parts[0]) {
+		return false
+	}
+	s = s[len(parts[0]):]
+	for i := 1; i < len(parts); i++ {
+		// '*' consumes non-space characters only
+		j := 0
+		for j < len(s) && s[j] != ' ' {
+			j++
+		}
+		rest := parts[i]
+		if i == len(parts)-1 && rest == "" {
+			return j == len(s)
+		}
+		// find rest starting within s[:j+1]
+		k := strings.Index(s, rest)
+		if rest == "" || k < 0 || k > j {
+			return false
+		}
+		s = s[k+len(rest):]
+	}
+	return s == ""
 }
 
 // ViolationCount returns the number of distinct violation signatures so far (known or not).
@@ -386,7 +427,7 @@ func (c *Ctx) finish(skipEvidence bool) int {
 	for _, s := range sigs {
 		v := c.viols[s]
 		if v.Known {
-			fmt.Printf("KNOWN-FINDING: property=%s %s -- %s (cases=%d)\n", c.ID, s, oneLine(c.known[s].Description), v.Count)
+			fmt.Printf("KNOWN-FINDING: property=%s %s -- %s (cases=%d)\n", c.ID, s, oneLine(c.known[v.KnownAs].Description), v.Count)
 			knownHit = append(knownHit, s)
 			continue
 		}
